@@ -893,8 +893,37 @@ impl Parser for BlockStatement {
     }
 }
 
+/// True if the statement ends with a call that has an erroneous argument (see `CallStatement`).
+/// Statements without a block of their own end where their last statement ends,
+/// so they inherit its unlimited look ahead.
+fn ends_with_erroneous_call(stmt: &Statement) -> bool {
+    match stmt {
+        Statement::Call(call) => call
+            .arguments
+            .iter()
+            .any(|arg| matches!(arg.reference, Expression::Error(_))),
+        Statement::If(if_stmt) => if_stmt
+            .else_branch
+            .as_ref()
+            .or(if_stmt.if_branch.as_ref())
+            .map_or(false, |branch| ends_with_erroneous_call(branch)),
+        Statement::While(while_stmt) => while_stmt
+            .statement
+            .as_ref()
+            .map_or(false, |stmt| ends_with_erroneous_call(stmt)),
+        _ => false,
+    }
+}
+
 impl Parser for Statement {
     fn parse<'a>(this: Option<&Self>, input: TokenStream<'a>) -> IResult<'a, Self> {
+        if this.map_or(false, ends_with_erroneous_call) {
+            // let the caller start over without the old node
+            return Err(nom::Err::Error(ParserError {
+                input,
+                kind: crate::error::ParserErrorKind::Affected,
+            }));
+        }
         fn parse_error(input: TokenStream) -> IResult<Statement> {
             let (input, ((_, ignored), mut info)) = info(tuple((
                 many0(comment),
